@@ -149,6 +149,8 @@ def generate(sess):
     rng = sess.rng
     thorough = sess.tier != "quick"
     u16_boundaries(sess, "toy31")
+    for suite in TOY_SUITES + REAL_SUITES:
+        evalpoly_stream(sess, suite, 30 if thorough else 8)
     for suite in TOY_SUITES:
         for n in range(2, 9 if thorough else 7):
             for t in range(2, n + 1):
